@@ -16,7 +16,7 @@ import math
 import os
 import random
 
-from .. import tlc, pdbio, core
+from .. import tlc, pdbio, core, runner
 
 ELN = {"C": "C", "H": "H", "S": "S", "F": "F", "N": "N", "O": "O"}
 
@@ -33,7 +33,7 @@ def mk_atoms(pos, el, order, shift=(0, 0, 0), same_serial=False):
     atoms = []
     for i in order:
         x, y, z = (10 * (pos[i][j] + shift[j]) for j in range(3))
-        name = {"C": "C1", "H": "H1", "S": "S1", "F": "F1", "N": "N1", "O": "O1", "SE": "SE1"}[el[i]]
+        name = {"C": "C1", "H": "H1", "S": "S1", "F": "F1", "N": "N1", "O": "O1", "SE": "SE1", "I": "I1"}[el[i]]
         a = Atom(pdbio.atom_line("HETATM", serial=(17 if same_serial else i), name=name, resn="LIG", chain="A", num=1, x=x, y=y, z=z,
                                  elem=el[i]))
         a.pkv_id = i
@@ -96,7 +96,8 @@ def run(ctx):
         if r.invariant_violated != "BondsAreAllPairs":
             raise tlc.TLCError("self-test failed: a cell list with a missing offset was not refuted")
     # ---- G ---------------------------------------------------------------------------------
-    cfg = cfg_with_thresholds("Gen_CellList_t.cfg" if ctx.thorough() else "Gen_CellList.cfg", os.path.join(wd, "gen.cfg"), th)
+    cfg = cfg_with_thresholds("Gen_CellList_t.cfg" if ctx.thorough() else ("Gen_CellList.cfg", "Gen_CellList_b.cfg")[ctx.seed % 2],
+                              os.path.join(wd, "gen.cfg"), th)
     r = tlc.run("MC_CellList", cfg, workers=1, timeout=3000)
     ctx.add_tlc(r, "placement generator")
     if not r.ok:
@@ -164,7 +165,7 @@ def run(ctx):
         pos, el = {}, {}
         for i in range(1, n + 1):
             pos[i] = tuple(org[j] + rng.randrange(0, side) for j in range(3))
-            el[i] = rng.choice(list("CCCHHSSFNO") + ["SE"])
+            el[i] = rng.choice(list("CCCHHSSFNOI") + ["SE"])
         # knife-edge filter (exact, integer): drop clouds with a pair exactly on a threshold
         ke = False
         ths = {v * v for v in th.values()}
@@ -228,6 +229,40 @@ def run(ctx):
             ctx.violation(f"bridge-run:exception:{c[0]}", f"{m}", {"pdb": c[1], "optargs": c[2]})
         else:
             ctx.nontriv(("bridge-run", c[0]))
+    # ---- T(d): the bond set of full runs - all atoms, kept input hydrogens too - is the pairwise rule ------------------
+    from . import c07
+    brecs, bmeta = [], []
+    frag = C.fragment("3SGB", "E", 0, 25)
+    hfrag = c07.with_own_hydrogens(frag)
+    for nm, text, opts in [("frag-3SGB-E0+25", frag, ["-q"]), ("disulfide-pair", C.join(pair), ["-q"])] + \
+            ([("frag-3SGB-E0+25 +own-hydrogens -k", hfrag, ["-q", "-k"])] if hfrag else []):
+        rb_ = runner.run(text, opts, write=False)
+        ctx.count()
+        if rb_.exc is not None:
+            ctx.violation(f"bond-run:exception:{nm}", repr(rb_.exc), {"pdb": text, "optargs": opts[1:]})
+            continue
+        conf = rb_.mol.conformations[rb_.mol.conformation_names[0]]
+        atoms = list(conf.atoms)
+        ids = {id(a): k + 1 for k, a in enumerate(atoms)}
+        x0 = min(a.x for a in atoms); y0 = min(a.y for a in atoms); z0 = min(a.z for a in atoms)
+        pos = [[int(round((a.x - x0) * 1000)), int(round((a.y - y0) * 1000)), int(round((a.z - z0) * 1000))] for a in atoms]
+        bonds = sorted({tuple(sorted((ids[id(a)], ids[id(b)]))) for a in atoms for b in a.bonded_atoms if id(b) in ids})
+        brecs.append({"pos": pos, "el": [a.element.upper() if len(a.element) == 1 else a.element for a in atoms], "bonds": [list(b) for b in bonds]})
+        bmeta.append({"input": nm, "pdb": text, "optargs": opts[1:], "atoms": len(atoms), "bonds": len(bonds)})
+        ctx.nontriv(("bond-run", nm))
+    if brecs:
+        tfb = os.path.join(wd, "bondsets.json")
+        json.dump(brecs, open(tfb, "w"))
+        resb, bviol = tlc.trace_check("Trace_BondSet", ["B_AllPairs", "B_Irreflexive"], tfb,
+                                      constants={k_: 10 * v_ for k_, v_ in th.items()}, timeout=1800)
+        ctx.add_tlc(resb, "bond sets of full runs vs the pairwise rule")
+        ctx.traces += len(brecs)
+        for inv, idxs in sorted(bviol.items()):
+            for i_ in idxs[:2]:
+                m_ = bmeta[i_]
+                ctx.violation(f"bond-run:{inv}:{'keep-protons' if '-k' in m_['optargs'] else 'default'}",
+                              f"{inv}: the {m_['bonds']} bonds among the {m_['atoms']} atoms of {m_['input']} are not the pairwise rule",
+                              {"pdb": m_["pdb"], "optargs": m_["optargs"]})
     bv = runbank.validate(ctx, rrecs, metas, ["C01_Bridge"], "bridged cysteines of full runs")
     texts = {c[0]: c for c in cases}
     for inv, lst in sorted(bv.items()):
